@@ -103,6 +103,12 @@ pub fn respell(text: &str, style: &str, salt: u64, k: usize, rc: bool) -> Option
             if !rc {
                 return None;
             }
+            // a stretch of exactly k valid bases is found or not depending on where in the record it
+            // lies - the pinned builder and `weed` agree on that, it is the record-length-k corner of
+            // C01 (not claimed) - so turning such a record round changes the set for that reason
+            if recs.iter().any(|r| r.1.split(|b| *b == b'N' || *b == b'n').any(|seg| seg.len() == k)) {
+                return None;
+            }
             let i = rng.below(recs.len());
             recs[i].1 = crate::util::revcomp(&recs[i].1);
             plain(&recs, 60).into_bytes()
@@ -869,6 +875,12 @@ impl<'a> Exec<'a> {
                 if to_file {
                     args.push("-o".into());
                     args.push("o/align.out".into());
+                    if self.nproc % 2 == 0 {
+                        // the output file exists already and is longer than what will be written
+                        let stale: String = (0..table.n() + 2).map(|i| format!(">old{i}\n{}\n", "ACGT".repeat(60 + table.rows.len() / 4))).collect();
+                        self.dir.write("o/align.out", stale.as_bytes());
+                        probe("align_o_over_an_existing_longer_file");
+                    }
                 }
                 let mut r = self.run(args)?;
                 if to_file && r.ok() {
@@ -917,6 +929,12 @@ impl<'a> Exec<'a> {
                 if to_file {
                     args.push("-o".into());
                     args.push("o/distance.out".into());
+                    if self.nproc % 2 == 0 {
+                        let n = table.n() + 3;
+                        let stale: String = std::iter::once("Sample1\tSample2\tDistance\tMismatches\n".to_string()).chain((0..n * n).map(|i| format!("old{i}\told{}\t12345.00\t0.99999\n", i + 1))).collect();
+                        self.dir.write("o/distance.out", stale.as_bytes());
+                        probe("distance_o_over_an_existing_longer_file");
+                    }
                 }
                 let mut r = self.run(args)?;
                 if !r.ok() {
